@@ -224,7 +224,7 @@ type Walker struct {
 	// net/url", are correlated with the emitters' own decisions).
 	InlineAllRuns bool
 	// FixRuns answers decisions of every new run (invariants of the input space).
-	FixRuns  func(dk, constRepr string) (int, bool)
+	FixRuns func(dk, constRepr string) (int, bool)
 	// Concrete: scenario mode — maps, errors and nil-slices are modelled as concrete values.
 	Concrete bool
 	// ConcatLists: append(a, b...) of decidable lists is modelled element-wise.
@@ -1865,6 +1865,64 @@ func (r *Run) call(call *ast.CallExpr, env *Env) Val {
 					}
 				}
 			}
+			if (fn.Name() == "SplitN" || fn.Name() == "SplitAfterN") && len(call.Args) == 3 {
+				if a, ok := r.eval(call.Args[0], env).(VStr); ok {
+					if b, ok := r.eval(call.Args[1], env).(VStr); ok {
+						if n, ok := r.eval(call.Args[2], env).(VInt); ok {
+							if ac, ok := a.isConst(); ok {
+								if bc, ok := b.isConst(); ok {
+									l := VList{Key: "splitn", Elems: []Val{}}
+									parts := strings.SplitN(ac, bc, int(n.N))
+									if fn.Name() == "SplitAfterN" {
+										parts = strings.SplitAfterN(ac, bc, int(n.N))
+									}
+									for _, p := range parts {
+										l.Elems = append(l.Elems, constStr(p))
+									}
+									return l
+								}
+							}
+						}
+					}
+				}
+			}
+			if fn.Name() == "Cut" && len(call.Args) == 2 {
+				if a, ok := r.eval(call.Args[0], env).(VStr); ok {
+					if b, ok := r.eval(call.Args[1], env).(VStr); ok {
+						if ac, ok := a.isConst(); ok {
+							if bc, ok := b.isConst(); ok {
+								before, after, found := strings.Cut(ac, bc)
+								return VTuple{constStr(before), constStr(after), VBool{B: found}}
+							}
+						}
+					}
+				}
+			}
+			if (fn.Name() == "Index" || fn.Name() == "LastIndex") && len(call.Args) == 2 {
+				if a, ok := r.eval(call.Args[0], env).(VStr); ok {
+					if b, ok := r.eval(call.Args[1], env).(VStr); ok {
+						if ac, ok := a.isConst(); ok {
+							if bc, ok := b.isConst(); ok {
+								n := strings.Index(ac, bc)
+								if fn.Name() == "LastIndex" {
+									n = strings.LastIndex(ac, bc)
+								}
+								return VInt{N: int64(n), Label: fmt.Sprint(n)}
+							}
+						}
+					}
+				}
+			}
+			if fn.Name() == "IndexByte" && len(call.Args) == 2 {
+				if a, ok := r.eval(call.Args[0], env).(VStr); ok {
+					if b, ok := r.eval(call.Args[1], env).(VInt); ok {
+						if ac, ok := a.isConst(); ok {
+							n := strings.IndexByte(ac, byte(b.N))
+							return VInt{N: int64(n), Label: fmt.Sprint(n)}
+						}
+					}
+				}
+			}
 			if fn.Name() == "Split" && len(call.Args) == 2 {
 				if a, ok := r.eval(call.Args[0], env).(VStr); ok {
 					if b, ok := r.eval(call.Args[1], env).(VStr); ok {
@@ -1961,12 +2019,16 @@ func (r *Run) inlinableHelper(fn *types.Func, decl *ast.FuncDecl) bool {
 		}
 	}
 	sig := fn.Type().(*types.Signature)
-	if sig.Results().Len() != 1 {
+	if sig.Results().Len() < 1 {
 		return false
 	}
-	b, ok := sig.Results().At(0).Type().Underlying().(*types.Basic)
-	if !ok || b.Info()&(types.IsString|types.IsBoolean) == 0 {
-		return false
+	// one or several string/bool results (a case table may return a pair such as
+	// the Go type and the formatter to print)
+	for i := 0; i < sig.Results().Len(); i++ {
+		b, ok := sig.Results().At(i).Type().Underlying().(*types.Basic)
+		if !ok || b.Info()&(types.IsString|types.IsBoolean) == 0 {
+			return false
+		}
 	}
 	simple := true
 	ast.Inspect(decl.Body, func(n ast.Node) bool {
@@ -1987,7 +2049,7 @@ func (r *Run) followInValidation(fn *types.Func) bool {
 		return false
 	}
 	rel := strings.TrimPrefix(fn.Pkg().Path(), modPath+"/")
-	if (helperPkgs[rel] || rel == "internal/openapiv3") && r.W.Concrete {
+	if (helperPkgs[rel] || rel == "internal/openapiv3" || strings.HasPrefix(rel, "cmd/")) && r.W.Concrete {
 		return true // scenario mode: everything in the generator packages is interpreted
 	}
 	if helperPkgs[rel] || rel == "internal/openapiv3" {
